@@ -652,6 +652,40 @@ def both_names_for_the_values(ctx):
             ctx.violation("CreateWithQuantity(values=, value=)-size", {"given": label, "problem": p, "result": srepr(res)[:160]}, replay={"both_names": True})
 
 
+def dimensions_that_are_no_whole_numbers(ctx):
+    """A dimension that is not a whole number (2.5, numpy.float64(2.5), 3.9, 5/2) with as many values as its integer part:
+    no such array exists - the attempt is refused, on every route that takes a dimension; and what a refused attempt leaves
+    behind on the route is nothing (the gc sweep looks at every live FixedArray afterwards)."""
+    import numpy as np
+    from barril.units import FixedArray, ObtainQuantity
+
+    q = ObtainQuantity("m", "length")
+    n = 0
+    for d in (2.5, np.float64(2.5), 3.9, 5 / 2, np.float32(2.5), 2.0000001):
+        k = int(d)
+        vals = [1.0, 2.0, 3.0][:k]
+        for rname, fn in (
+            ("FixedArray(d, values, unit)", lambda: FixedArray(d, list(vals), "m")), ("FixedArray(d, category, values, unit)", lambda: FixedArray(d, "length", tuple(vals), "m")), ("FixedArray(d, quantity, values)", lambda: FixedArray(d, q, np.array(vals))),
+            ("CreateWithQuantity(dimension=d)", lambda: FixedArray.CreateWithQuantity(q, list(vals), dimension=d)), ("CreateEmptyArray(d, values)", lambda: FixedArray.CreateEmptyArray(d, list(vals))), ("CreateWithQuantity(value=, dimension=d)", lambda: FixedArray.CreateWithQuantity(q, value=list(vals), dimension=d)),
+        ):  # fmt: skip
+            ctx.ev()
+            n += 1
+            ctx.nt(("fractional dimension", repr(d), rname))
+            try:
+                res = fn()
+            except Exception:
+                ctx.count("fractional dimensions refused")
+                continue
+            ctx.count("fractional dimensions accepted")
+            try:
+                size, dim = len(res.GetValues()), res.dimension
+            except Exception as e:
+                size, dim = "raised %s" % type(e).__name__, None
+            if size != dim:
+                ctx.violation("fixedarray-size:dimension-that-is-no-whole-number", {"route": rname, "dimension_given": repr(d), "dimension": repr(dim), "len(values)": size, "result": srepr(res)[:160]}, replay={"fractional_dimensions": True})
+    ctx.count("attempts with a dimension that is no whole number", n)
+
+
 def curves(ctx, r, n_hist):
     from barril.curve.curve import Curve
     from barril.units import Array, FixedArray
@@ -797,6 +831,7 @@ def run(ctx):
         if ctx.shard == 0:
             unitless_sources(ctx)
             both_names_for_the_values(ctx)
+            dimensions_that_are_no_whole_numbers(ctx)
             do_sweep(ctx, "unit-less sources")
             ctx.sample({"route": "CreateWithQuantity(q,values=,dimension=)", "dimension": 3, "len": 2, "container": "nd", "expected": "ValueError, container untouched"})
             ctx.sample({"chain": ["+fixed", "bad:+array", "ChangingIndex", "pickle", "*nd1"], "expected": "dimension kept, refused attempt raises ValueError"})
